@@ -29,6 +29,9 @@ def cases(tier, r):
                 for rows, cols in ((1, 1), (1, 3), (8, 1)):
                     ps.append({"x": "optpart", "st": st, "dt": dt, "mode": mode, "label": None, "rows": rows, "cols": cols})
                 ps.append({"x": "optpart", "st": st, "dt": dt, "mode": mode, "label": ""})
+                # source and destination of different heights (8 rows against 4, 2 against 8)
+                ps.append({"x": "optpart", "st": st, "dt": dt, "mode": mode, "label": None, "rows": 8, "drows": 4})
+                ps.append({"x": "optpart", "st": st, "dt": dt, "mode": mode, "label": None, "rows": 2, "drows": 8})
     return ps
 
 
